@@ -217,7 +217,7 @@ int main(int argc, char** argv) {
         case 1: c.s = -10 - len; break;                             // all negative
         case 2: c.s = -1; break;
         case 3: c.s = -128; break;                                  // int8_t minimum
-        default: c.s = 127 - len - (long long)r.below(2); break;    // up to the int8_t maximum
+        default: c.s = 127 - len - (long long)r.below((uint64_t)(c.n * c.blk + 2)); break;    // up to / near the int8_t maximum
       }
       c.e = c.s + len;
       for (int k = 0; k < len; k++)
@@ -240,9 +240,11 @@ int main(int argc, char** argv) {
       c.variant = which == 0 ? "range" : which == 1 ? "blocks" : "multi";
       c.bits = 8;
       c.n = 2 + (int)r.below(2);
-      c.blk = c.variant == "range" ? 1 : 1 + (long long)r.below(2);
+      c.blk = c.variant == "range" ? 1 : 1 + (long long)r.below(3);
       int len = (int)r.below(3) * (int)c.blk;
-      c.e = 255 - (long long)r.below(2);
+      // the end lies 0..(threads * block + 1) below the maximum of the type: every distance at which a cursor that is
+      // advanced once too often (by 1 or by a whole block, by one or by every worker) would wrap
+      c.e = 255 - (long long)r.below((uint64_t)(c.n * c.blk + 2));
       c.s = c.e - len;
       if (r.chance(30) && len) c.ts.insert(c.s + r.below(len));
       run_once<uint8_t>(c, {}, [&](int k) { return (int)r.below(k); });
